@@ -5,9 +5,14 @@ CFG = {
     "exe": "geomv_c03",
     "go_cmd": "c03",
     "stages": ["go:gen", "go:impl", "lean:judge"],
-    "theorems": [T + n for n in ["shoelace_eq_textbook", "shoelace_reverse", "shoelace_rotate", "shoelace_close",
-                                 "centroidNum_reverse", "centroidNum_rotate", "centroidNum_close", "measure_spelling",
-                                 "C03_area", "C03_marea"]],
+    "theorems": [T + n for n in [
+        "shoelace_eq_textbook", "shoelace_reverse", "shoelace_rotate", "shoelace_close",
+        "centroidNum_reverse", "centroidNum_rotate", "centroidNum_close", "measure_spelling",
+        "C03_area", "C03_marea",
+        "C03_centroid", "C03_centroid_invariant", "C03_centroid_true",
+        "op_agrees_area", "op_agrees_centroid", "op_centroid_unclosed_differs", "C03_mcentroid_unfixed_wrong",
+        "distPointToSegment_min", "C03_length", "C03_length_multi", "C03_distance", "C03_distance_multi",
+        "C03_buffer", "C03_buffer_panics"]],
     "trusted_base": [
         "Lean 4.33.0 kernel; axioms of every theorem printed by #print axioms must be within {propext, Classical.choice, Quot.sound}",
         "Mathlib v4.33 modules imported by GeomV/C03/Lemmas*.lean and Proofs.lean (checked by the same kernel)",
